@@ -240,13 +240,25 @@ Section LZProofs.
     exfalso. apply (H kv (or_introl eq_refl)). exact E.
   Qed.
 
-  (* every string is parsed from a fresh copy of the base dictionary: the matrix rows are a map of the strings *)
+  (* every string is parsed from a fresh copy of the base dictionary: the matrix rows are a map of the strings,
+     whether or not every parsed phrase has a column (unseen phrases are dropped, indptr advances by the kept ones) *)
   Lemma lz_transform_rows : forall coldict base max_size X,
-    (forall s, In s X -> forall kv, In kv (lz_encode K keqb h max_size s base) -> dfind K keqb (fst kv) coldict <> None) ->
     csr_rows (lz_transform K keqb h coldict base max_size X) = map (lz_row K keqb h coldict base max_size) X.
   Proof.
-    intros coldict base max_size X H. unfold lz_transform. apply csr_loop_rows.
-    intros s Hs. unfold lz_advance, lz_row. symmetry. apply lz_row_of_length. now apply H.
+    intros coldict base max_size X. unfold lz_transform. apply csr_loop_rows.
+    intros s Hs. reflexivity.
+  Qed.
+
+  (* the row of a string keeps exactly the phrases of its own parse that have a column *)
+  Lemma lz_row_spec : forall coldict base max_size s c v,
+    In (c, v) (lz_row K keqb h coldict base max_size s) <->
+    exists k, In (k, v) (lz_encode K keqb h max_size s base) /\ dfind K keqb k coldict = Some c.
+  Proof.
+    intros coldict base max_size s c v. unfold lz_row, lz_row_of. rewrite in_flat_map. split.
+    - intros ((k, v') & Hin & Hrow). cbn [fst snd] in Hrow.
+      destruct (dfind K keqb k coldict) as [c'|] eqn:E; [|contradiction].
+      destruct Hrow as [Heq|[]]. inversion Heq; subst. exists k. split; assumption.
+    - intros (k & Hin & E). exists (k, v). split; [exact Hin|]. cbn [fst snd]. rewrite E. now left.
   Qed.
 End LZProofs.
 
@@ -417,6 +429,68 @@ Proof.
     unfold range at 1. rewrite seq_length. reflexivity. }
   rewrite E, blocks_cover by exact Hb. apply seq_length.
 Qed.
+
+(* ------------------------------------------------------------------ the chunk loop inside the LOT kernels *)
+Lemma kernel_chunks_as_chunks : forall c n, kernel_chunks c n = chunks c 0 n.
+Proof.
+  intros. unfold kernel_chunks, chunks. rewrite Nat.sub_0_r. apply map_ext. intro k.
+  rewrite !Nat.add_0_r. f_equal. apply Nat.min_comm.
+Qed.
+
+Lemma kernel_chunks_cover : forall c n, (0 < c)%nat -> concat (map range (kernel_chunks c n)) = seq 0 n.
+Proof.
+  intros c n Hc. rewrite kernel_chunks_as_chunks, chunks_cover by lia. now rewrite Nat.sub_0_r.
+Qed.
+
+(* pointwise: row r of a block of n rows lies in exactly one chunk, the chunk r / c *)
+Lemma kernel_chunks_once : forall c n r, (0 < c)%nat -> (r < n)%nat ->
+  (r / c < n / c + 1)%nat /\
+  forall k, (k < n / c + 1)%nat -> ((k * c <= r < Nat.min (k * c + c) n)%nat <-> k = (r / c)%nat).
+Proof.
+  intros c n r Hc Hr.
+  pose proof (Nat.div_mod r c ltac:(lia)) as Er. pose proof (Nat.mod_upper_bound r c ltac:(lia)) as Ur.
+  pose proof (Nat.div_mod n c ltac:(lia)) as En. pose proof (Nat.mod_upper_bound n c ltac:(lia)) as Un.
+  assert (Hle : (r / c <= n / c)%nat) by (apply Nat.div_le_mono; lia).
+  split; [lia|]. intros k Hk. split.
+  - intros [H1 H2]. assert (H3 : (r < k * c + c)%nat) by lia. nia.
+  - intros ->. split; [nia|]. apply Nat.min_glb_lt; [nia|exact Hr].
+Qed.
+
+Lemma kernel_chunk_fill_map : forall (A B : Type) (row : A -> B) d zero c X,
+  (0 < c)%nat -> kernel_chunk_fill row d zero (kernel_chunks c (length X)) X = map row X.
+Proof.
+  intros A B row d zero c X Hc. unfold kernel_chunk_fill. rewrite kernel_chunks_cover by exact Hc.
+  apply prange_fill_perm; [apply repeat_length|apply Permutation_refl].
+Qed.
+
+(* a row outside every chunk keeps the zero it was initialised with *)
+Lemma kernel_chunk_fill_unwritten : forall (A B : Type) (row : A -> B) d zero chunk_list X r,
+  (forall i, In i (concat (map range chunk_list)) -> (i < length X)%nat) ->
+  ~ In r (concat (map range chunk_list)) ->
+  nth r (kernel_chunk_fill row d zero chunk_list X) zero = zero.
+Proof.
+  intros A B row d zero chunk_list X r Hin Hr. unfold kernel_chunk_fill.
+  rewrite prange_fill_nth by (intros i Hi; rewrite repeat_length; now apply Hin).
+  destruct (existsb (Nat.eqb r) (concat (map range chunk_list))) eqn:E.
+  - apply existsb_exists in E. destruct E as (x & Hx & Hx'). apply Nat.eqb_eq in Hx'. subst x. contradiction.
+  - destruct (Nat.lt_ge_cases r (length X)) as [Hlt|Hge].
+    + apply nth_repeat.
+    + apply nth_overflow. now rewrite repeat_length.
+Qed.
+
+(* with the chunk count max(1, n // c) the rows after the last full chunk are never written *)
+Lemma kernel_chunks_short_differs :
+  kernel_chunk_fill (fun x : Z => (x + 1)%Z) 0%Z 0%Z (kernel_chunks_short 2 3) [5; 6; 7]%Z
+  <> map (fun x : Z => (x + 1)%Z) [5; 6; 7]%Z.
+Proof. vm_compute. discriminate. Qed.
+
+(* a block size larger than the batch gives the single block [0, n) *)
+Lemma blocks_larger : forall b n, (n < b)%nat -> blocks b n = [(0, n)]%nat.
+Proof.
+  intros b n H. unfold blocks. rewrite Nat.div_small by exact H. cbn [plus seq map].
+  f_equal. f_equal. lia.
+Qed.
+
 
 (* ------------------------------------------------------------------ batched Sinkhorn *)
 Fixpoint iter {S : Type} (k : nat) (f : S -> S) (s : S) : S :=
